@@ -3,6 +3,18 @@ From Coq Require Import List Bool Arith PeanoNat Lia.
 From Annot Require Import Model ModelSpec.
 Import ListNotations.
 
+(* ------------------------------------------------------------------ Prop-valued notions of the theorem statements *)
+(* nested occurrence of a statement in a block *)
+Inductive occurs {A} : stmt A -> list (stmt A) -> Prop :=
+| occ_here : forall s l, In s l -> occurs s l
+| occ_if1 : forall s b1 b2 l, In (SIf b1 b2) l -> occurs s b1 -> occurs s l
+| occ_if2 : forall s b1 b2 l, In (SIf b1 b2) l -> occurs s b2 -> occurs s l
+| occ_for : forall s b l, In (SFor b) l -> occurs s b -> occurs s l.
+
+(* every binding of the environment carries a resolved precision *)
+Definition env_res (G : env) : Prop := forall x b, lookup x G = Some b -> b_prec b <> PR.
+
+
 (* ------------------------------------------------------------------ induction principles *)
 Section ExprInd.
   Variable A : Type.
